@@ -210,6 +210,22 @@ func Findings() []Finding {
 			panic("known_findings.json: " + err.Error())
 		}
 		findings = doc.Findings
+		// per-property fragments known/<id>/findings.json (same format) are merged in
+		frags, _ := filepath.Glob(filepath.Join(Root(), "known", "*", "findings.json"))
+		sort.Strings(frags)
+		for _, fp := range frags {
+			fb, err := os.ReadFile(fp)
+			if err != nil {
+				continue
+			}
+			var fd struct {
+				Findings []Finding `json:"findings"`
+			}
+			if err := json.Unmarshal(fb, &fd); err != nil {
+				panic(fp + ": " + err.Error())
+			}
+			findings = append(findings, fd.Findings...)
+		}
 	})
 	return findings
 }
